@@ -227,7 +227,7 @@ finding("C13-assoc-key-tilde", "C13", "an associative-array key starting with `~
 # ---------------------------------------------------------------------------------------------- C14
 for feat, what in [("heredoc", "here-document bodies are indented and the closing tag is printed with its quotes"), ("heredoc-quoted", "quoted here-document tag"), ("heredoc-dash", "<<- here-document"), ("heredoc-two", "two here-documents"), ("heredoc-then-cmd", "here-document followed by a command"),
                    ("procsub-in", "`<(cmd)` is printed as `<(( cmd ))`"), ("procsub-out", "`>(cmd)` printing / export"), ("pipeline-stderr", "`|&` is printed as `2>& 1 |` (different AST)"), ("for-default", "`for i; do` is printed as `for i in ;`"),
-                   ("arith-cmd", "`(( x = 1 + 2 ))` loses its inner blanks (bash prints them)"), ("redir-fdvar", "`{fd}>f` is printed as `{fd} > f`"), ("case-multi", "case inside a subshell"), ("case-empty", "empty case inside a subshell"), ("case-noarm-body", "case arm without body inside a subshell"),
+                   ("arith-cmd", "`(( x = 1 + 2 ))` loses its inner blanks (bash prints them)"), ("redir-fdvar", "`{fd}>f` is printed as `{fd} > f`"), ("case-multi", "case inside a subshell"), ("case-empty", "empty case inside a subshell"), ("case-empty-fallthrough", "case with empty `;&` / `;;&` items inside a subshell (`esac )` does not re-parse)"), ("case-noarm-body", "case arm without body inside a subshell"),
                    ("coproc", "coproc printing"), ("coproc-named", "named coproc printing"), ("select", "select is not accepted"), ("timed-p", "time -p"), ("cond", "[[ ]] with parentheses"), ("cond-regex", "=~ printing"), ("arith-for", "arithmetic for printing"), ("background", "`cmd & wait` printing"), ("amp-list", "& lists"),
                    ("nested-func-redir", "nested function with redirect"), ("quotes", "quoting forms"), ("assign-array", "array assignment printing"), ("comment", "comments"), ("if-elif-else", "if/elif/else in bash's layout"), ("while-redir", "while with redirects"), ("case-multi", "case terminators")]:
     finding(f"C14-print-{feat}", "C14", f"function printing: {what}", all=[f"feat:{feat}"], why="printer rewrite per AST node (Display impls)")
